@@ -97,6 +97,13 @@ impl Property for C17 {
             push(false, [&[0u8][..], &s[..]].concat());
             push(false, [&s[..], &[0u8][..]].concat());
         }
+        // every pool secret (edge scalars, mined coordinates, ed25519 seeds whose public key has a rare shape)
+        for s in crate::keys::pool().ed.iter() {
+            push(true, s.to_vec());
+        }
+        for s in crate::keys::pool().secp.iter() {
+            push(false, s.to_vec());
+        }
         // secrets for which the corpus holds records with rarely shaped signatures
         for ed in [false, true] {
             for s in crate::sigshapes::secrets(ed) {
